@@ -285,15 +285,70 @@ func propC14(a *Analysis, r *Registry) {
 				cnt := X.S.atomRF(ids[0].ID)
 				e3.Set("count", cnt, nil)
 				e3.Set("goal", arg.Sub(ids[0].Args[1]).Mul(cnt), nil)
-				// condition from the block that loads the element to the return
-				var from *ssa.BasicBlock
-				for _, p := range fc.Ctx.LivePreds(ret.Block()) {
-					from = p
+				// the walk is left towards the return only in a bin whose count exceeds the
+				// remaining rank, and never goes on past such a bin — read off the loop's exit
+				// edges (a return inside the body, a break, a found-flag tested after the
+				// loop) and its continue condition, whatever form the test takes
+				hit := e3.MustParse("goal<count")
+				// (the loop is the one that carries the bin index)
+				for _, ph := range fc.loopPhis(ids[0].Args[1]) {
+					if pa := ph.SingleAtom(); pa != nil && X.phiOf[pa.ID] != nil {
+						hdr = X.phiOf[pa.ID].Block()
+					}
 				}
-				if from == nil {
+				if fc.Ctx.LoopOf(hdr) == nil || fc.Ctx.LoopOf(hdr).Header != hdr {
+					b.R.Fail("B-C14 formula", name+"/walk-guard", a.W.InstrPos(ret), "the return is not attached to a loop over the bins")
 					return
 				}
-				b.Eq("B-C14 formula", name+"/walk-guard", a.W.InstrPos(ret), fc.edgeCond(from, ret.Block()), e3, "goal<count")
+				okGuard := true
+				// R: the condition, at the iteration in which the walk is left, under which the
+				// return is reached (over every exit edge; a way out that panics contributes nothing)
+				R := X.S.False()
+				for _, ee := range fc.ExitEdges(hdr) {
+					// (forward over the loop-free code after the walk; merges on the way are
+					// resolved along the edges taken)
+					var fwd func(cur *ssa.BasicBlock, depth int) *RF
+					fwd = func(cur *ssa.BasicBlock, depth int) *RF {
+						if cur == ret.Block() {
+							return X.S.True()
+						}
+						if depth > 24 || fc.Ctx.LoopOf(cur) != nil && fc.Ctx.LoopOf(cur).Header == hdr {
+							return X.S.False()
+						}
+						acc := X.S.False()
+						for _, sc := range fc.Ctx.LiveSuccs(cur) {
+							acc = X.S.Or(acc, X.S.And(fc.edgeCond(cur, sc), fwd(sc, depth+1)))
+						}
+						return acc
+					}
+					reach := fc.resolveAlongEdge(ee.From, ee.To, fwd(ee.To, 0))
+					if os.Getenv("GMSA_DEBUG_C14") != "" {
+						fmt.Fprintln(os.Stderr, "EXIT", ee.From.Index, "->", ee.To.Index, "cond", ee.Cond, "\n  reach:", reach)
+						for _, p := range fc.Ctx.LivePreds(ret.Block()) {
+							fmt.Fprintln(os.Stderr, "  edgeCond", p.Index, "->", ret.Block().Index, fc.edgeCond(p, ret.Block()))
+						}
+					}
+					R = X.S.Or(R, X.S.And(ee.Cond, reach))
+				}
+				nret := 1
+				if R.Equal(X.S.False()) {
+					nret = 0
+				}
+				if !X.SimplifyUnder(R, []Assumption{{Cond: hit, True: false}}).Equal(X.S.False()) {
+					okGuard = false
+					b.R.Fail("B-C14 formula", name+"/walk-guard", a.W.InstrPos(ret), "the walk can return from a bin whose count does not exceed the remaining rank: returns when "+clip(R.String(), 200))
+				}
+				if cc := fc.ContinueCond(hdr); okGuard && !X.SimplifyUnder(cc, []Assumption{{Cond: hit, True: true}}).Equal(X.S.False()) {
+					okGuard = false
+					b.R.Fail("B-C14 formula", name+"/walk-guard", a.W.InstrPos(ret), "the walk can go on past a bin whose count exceeds the remaining rank: continues while "+clip(cc.String(), 160))
+				}
+				if okGuard && nret == 0 {
+					okGuard = false
+					b.R.Fail("B-C14 formula", name+"/walk-guard", a.W.InstrPos(ret), "no way out of the walk returns a value")
+				}
+				if okGuard {
+					b.R.OK("B-C14 formula", name+"/walk-guard", a.W.InstrPos(ret), "the walk returns exactly from the first bin with goal < count")
+				}
 				_ = hdr
 			}()
 			b.EqRF("B-C14 formula", name+"/BinToValue-receiver", a.W.InstrPos(call), fc.Val(call.Common().Value), env.Vars["hist"].RF, "interpolates with the histogram's own BinToValue")
